@@ -19,7 +19,7 @@ for d in dirs:
     patches += sorted(glob.glob(os.path.join(d, '*', 'patch.diff')))
 pool = queue.Queue()
 for k in range(J):
-    wt = '/tmp/wtp-%d' % k
+    wt = '/tmp/wtp-%d-%d' % (os.getpid(), k)
     subprocess.run(['git', '-C', '/repo', 'worktree', 'remove', '--force', wt], capture_output=True)
     subprocess.run(['git', '-C', '/repo', 'worktree', 'add', '-q', '--detach', wt, 'HEAD'], check=True)
     pool.put(wt)
@@ -61,7 +61,7 @@ with cf.ThreadPoolExecutor(J) as ex:
     for sid, r in ex.map(run, patches):
         res[sid] = r
 for k in range(J):
-    subprocess.run(['git', '-C', '/repo', 'worktree', 'remove', '--force', '/tmp/wtp-%d' % k], capture_output=True)
+    subprocess.run(['git', '-C', '/repo', 'worktree', 'remove', '--force', '/tmp/wtp-%d-%d' % (os.getpid(), k)], capture_output=True)
 json.dump(res, open(outp, 'w'), indent=1)
 bad = 0
 for sid in sorted(res):
